@@ -1,5 +1,6 @@
 import DmrVerif.Driver.Loop
+import DmrVerif.Driver.Bptc
 
-/-! model driver for property C02 (stub: no operations registered yet) -/
+/-! model driver for property C02 -/
 
-def main : IO Unit := Dmr.Driver.runMain []
+def main : IO Unit := Dmr.Driver.runMain [Dmr.Driver.bptcOp]
